@@ -100,12 +100,19 @@ type c12World struct {
 	seq  int
 	// reent: sequence number whose live delivery to subscription 0 publishes one
 	// follow-up event of the same type from inside the handler (0: none armed)
-	reent int
+	reent            int
+	explicitSubStore bool
 }
 
 func (w *c12World) restart() {
 	w.st.dead = false
-	w.bus = New(WithStore(w.st))
+	if w.explicitSubStore {
+		// the subscription store named explicitly (here: the same object) instead of being
+		// discovered on the event store
+		w.bus = New(WithSubscriptionStore(w.st), WithStore(w.st))
+	} else {
+		w.bus = New(WithStore(w.st))
+	}
 	w.run++
 	w.subd = [2]bool{}
 }
@@ -205,6 +212,7 @@ func c12History(H int, faults bool) {
 			w.st.crashAt = vInt(0, 6*H)
 		}
 	}
+	w.explicitSubStore = vBool()
 	w.restart()
 	// offsets of evA events by sequence number, as appended
 	offByN := map[int]Offset{}
